@@ -176,7 +176,29 @@ func isRegionKey(k string) bool {
 }
 
 // initial value of a region: a stable named constant
+// ensureSort: a region reached only through a callee's effect set may have a sort whose datatypes were never
+// materialised in this function's context; copy their declarations over from the effect analysis' context.
+func (x *Xlat) ensureSort(s Sort) {
+	if k, v, ok := splitArrSort(s); ok {
+		x.ensureSort(k)
+		x.ensureSort(v)
+		return
+	}
+	if x.sortKnown(s) || x.eff == nil || x.eff.tm == nil {
+		return
+	}
+	if d := x.eff.tm.ctx.dtByName[s]; d != nil {
+		for _, f := range d.Fields {
+			if f.Sort != s {
+				x.ensureSort(f.Sort)
+			}
+		}
+		x.ctx.AddDatatype(d)
+	}
+}
+
 func (x *Xlat) initial(key string, s Sort) *Term {
+	x.ensureSort(s)
 	t := x.ctx.Named(key+"@0", s)
 	if _, done := x.ctx.constAxioms[t.Op]; !done {
 		var al, aal *Term
